@@ -979,6 +979,87 @@ pub fn c06(ctx: &Ctx) -> Report {
             }
         }
     });
+    // long runs: counters inside a receiver are 8 or 16 bits wide, so repetitions around 2^8 and 2^16 of each kind
+    // of filler are placed between a context (running status / partial message) and a tail of ordinary messages
+    {
+        let lens: Vec<usize> = if thorough { vec![254, 255, 256, 257, 258, 300, 65534, 65535, 65536, 65537, 65540] } else { vec![255, 256, 257, 300, 65537] };
+        let mut long_jobs: Vec<(u8, usize, usize, usize)> = Vec::new(); // channel, context, filler, length
+        for ch in if thorough { vec![0u8, 7, 15] } else { vec![0u8] } {
+            for ctxi in 0..5 {
+                for fill in 0..6 {
+                    for &l in &lens {
+                        long_jobs.push((ch, ctxi, fill, l));
+                    }
+                }
+            }
+        }
+        let lj = &long_jobs;
+        par_ranges(ctx, &mut rep, long_jobs.len() as u64, long_jobs.len() as u64, |_, lo, hi, lc| {
+            for j in lo..hi {
+                let (ch, ctxi, fill, l) = lj[j as usize];
+                let f = (ch + 1) % 16;
+                let (on, cc, pb) = (0x90 | ch, 0xB0 | ch, 0xE0 | ch);
+                let mut s: Vec<u8> = match ctxi {
+                    0 => vec![on, 0x3C, 0x64],
+                    1 => vec![on, 0x3C],
+                    2 => vec![cc, 0x01],
+                    3 => vec![pb, 0x05, 0x40],
+                    _ => vec![],
+                };
+                match fill {
+                    0 => {
+                        s.push(0xF0);
+                        for i in 0..l {
+                            s.push(if i % 2 == 0 { 0x3E } else { 0x64 });
+                        }
+                    }
+                    1 => s.extend(std::iter::repeat(0xF8).take(l)),
+                    2 => {
+                        for _ in 0..l {
+                            s.extend([0x90 | f, 0x3E, 0x64]);
+                        }
+                    }
+                    3 => {
+                        for _ in 0..l {
+                            s.extend([0xF0, 0x11, 0xF7]);
+                        }
+                    }
+                    4 => {
+                        // the same controller message over and over (running status)
+                        s.push(cc);
+                        for _ in 0..l {
+                            s.extend([0x07, 0x33]);
+                        }
+                    }
+                    _ => {
+                        // pitch bends with a zero LSB over and over
+                        s.push(pb);
+                        for i in 0..l {
+                            s.extend([0x00, 0x41 + (i % 8) as u8]);
+                        }
+                    }
+                }
+                s.extend([0x3E, 0x64, cc, 0x01, 0x40, on, 0x3C, 0x00, pb, 0x00, 0x7F, on, 0x40, 0x22]);
+                run_stream(ch, &s, lc);
+                lc.count("long_run_streams", 1);
+            }
+        });
+        // after every controller number: traffic on another channel and on the own channel still decodes as before
+        let chans: Vec<u8> = if thorough { (0..16).collect() } else { vec![0, 9] };
+        let cr = &chans;
+        par_ranges(ctx, &mut rep, chans.len() as u64 * 128, chans.len() as u64 * 128, |_, lo, hi, lc| {
+            for j in lo..hi {
+                let ch = cr[(j / 128) as usize];
+                let num = (j % 128) as u8;
+                let f = (ch + 3) % 16;
+                for val in [0u8, 64, 127] {
+                    let s = vec![0xB0 | ch, num, val, 0x90 | f, 0x3C, 0x64, 0xB0 | f, 0x01, 0x40, 0xE0 | f, 0x00, 0x10, 0xB0 | f, 0x7B, 0x00, 0x90 | ch, 0x3E, 0x64, 0x80 | f, 0x3E, 0x00, 0xE0 | ch, 0x7F, 0x7F];
+                    run_stream(ch, &s, lc);
+                    lc.count("after_controller_streams", 1);
+                }
+            }
+        });
+    }
     // the channel byte as constructed (new(ch) with ch > 15 is C20's business)
     let streams = rep.counters.get("streams").copied().unwrap_or(0);
     let bytes = rep.counters.get("bytes_fed").copied().unwrap_or(0);
@@ -991,12 +1072,102 @@ pub fn c06(ctx: &Ctx) -> Report {
     rep.subruns.push(json!({"engine": "E2-deviations", "base_streams_per_channel": catalogue(0).len(), "channels": 16, "k1": true, "k2_channels": if thorough { vec![0, 10] } else { vec![] }, "streams": streams, "bytes": bytes}));
     rep.require_nonzero("streams_with_an_observable_effect");
     rep.require_nonzero("real_time_bytes");
+    rep.require_nonzero("long_run_streams");
+    rep.require_nonzero("after_controller_streams");
     rep.sample(json!({"stream": "90 F8 3C FA 64", "meaning": "note-on with real-time bytes between its bytes; B receives 90 3C 64"}));
     rep.sample(json!({"stream": "90 3C 64 F0 01 02 F7 3E 64", "meaning": "SysEx cancels running status: 3E 64 must be ignored"}));
     rep.assumptions.push("the harness decoder is the reference for MIDI 1.0 framing (60 lines, src/p_midi.rs Decoder)".into());
     rep.assumptions.push("all 256^n streams are not enumerated; coverage is the fixpoint over the byte alphabet plus <= 2 arbitrary inserted bytes around a catalogue".into());
     rep
 }
+
+/// every sequence of `depth` controller messages from `ops` (no state matching), each followed by the fixed probe
+/// operations; the model comparison runs after every message, panics are caught and reported under every property
+pub fn cc_sequences(ctx: &Ctx, rep: &mut Report, ch: u8, ops: &[(u8, u8)], depth: u32, probes: &[MOp], props: &[&'static str], label: &str) {
+    let n = ops.len() as u64;
+    let split = if depth >= 2 { 2 } else { 1 };
+    let prefixes = n.pow(split);
+    let pv: Vec<&'static str> = props.to_vec();
+    let pr = &pv;
+    let total = std::sync::atomic::AtomicU64::new(0);
+    par_ranges(ctx, rep, prefixes, prefixes.min(4096), |_, lo, hi, lc| {
+        fn rec(m: &MidiM, ops: &[(u8, u8)], depth: u32, path: &mut Vec<MOp>, probes: &[MOp], pr: &[&'static str], lc: &mut LocalCounts, count: &mut u64) {
+            if depth == 0 {
+                let mut t = m.fork();
+                let mut p2 = path.clone();
+                for p in probes {
+                    p2.push(*p);
+                    if !step(&mut t, p, &p2, pr, lc) {
+                        break;
+                    }
+                }
+                *count += 1;
+                return;
+            }
+            for (c, v) in ops {
+                let mut n = m.fork();
+                let op = MOp::Cc(*c, *v);
+                path.push(op);
+                if step(&mut n, &op, path, pr, lc) {
+                    rec(&n, ops, depth - 1, path, probes, pr, lc, count);
+                }
+                path.pop();
+            }
+        }
+        fn step(m: &mut MidiM, op: &MOp, path: &[MOp], pr: &[&'static str], lc: &mut LocalCounts) -> bool {
+            let mut out = StepOut::new();
+            let r = std::panic::catch_unwind(std::panic::AssertUnwindSafe(|| m.apply(op, &mut out)));
+            let ops = || path.iter().map(MidiM::op_str).collect::<Vec<_>>();
+            if let Err(e) = r {
+                for p in pr {
+                    lc.violation(Violation { prop: p, class: "panic".into(), detail: format!("the real code panicked: {}", panic_msg(&e)), machine: "midi", config: json!({"channel": m.ch}), ops: ops() });
+                }
+                return false;
+            }
+            let mut ok = true;
+            for f in out.flags {
+                if pr.contains(&f.prop) {
+                    let already = lc.per_class.get(&f.class).copied().unwrap_or(0);
+                    lc.violation(Violation { prop: f.prop, class: f.class, detail: f.detail, machine: "midi", config: json!({"channel": m.ch}), ops: if already < PER_CLASS_CAP { ops() } else { Vec::new() } });
+                    ok = false;
+                }
+            }
+            ok
+        }
+        let base = MidiM::new(ch, Alphabet { notes: vec![], vels: vec![], k: 32, modes: false, polls: false, ccs: vec![], bends: vec![], foreign: false, edge_note: None });
+        let mut count = 0u64;
+        for pi in lo..hi {
+            let mut m = base.fork();
+            let mut path: Vec<MOp> = Vec::new();
+            let mut x = pi;
+            let mut ok = true;
+            for _ in 0..split {
+                let (c, v) = ops[(x % n) as usize];
+                x /= n;
+                let op = MOp::Cc(c, v);
+                path.push(op);
+                if !step(&mut m, &op, &path, pr, lc) {
+                    ok = false;
+                    break;
+                }
+            }
+            if ok {
+                rec(&m, ops, depth - split, &mut path, probes, pr, lc, &mut count);
+            }
+        }
+        total.fetch_add(count, std::sync::atomic::Ordering::Relaxed);
+    });
+    let t = total.into_inner();
+    rep.count("controller_sequences", t);
+    rep.evaluations += t;
+    rep.transitions += t * (depth as u64 + probes.len() as u64);
+    rep.traces += t;
+    rep.subruns.push(json!({"engine": "E1-sequences", "machine": "midi", "label": label, "controller_messages_in_the_menu": ops.len(), "depth": depth, "probes_after_each_sequence": probes.iter().map(MidiM::op_str).collect::<Vec<_>>(), "sequences": t}));
+}
+
+/// controller numbers with (possibly) special meaning in MIDI: data entry, increment / decrement, (N)RPN select,
+/// channel mode messages, plus the nine routed ones
+pub const CC_FAMILY: [u8; 27] = [1, 5, 7, 64, 65, 71, 74, 6, 38, 96, 97, 98, 99, 100, 101, 120, 121, 122, 123, 124, 125, 126, 127, 0, 32, 2, 119];
 
 // ------------------------------------------------------------------ C18
 
@@ -1049,6 +1220,18 @@ pub fn c18(ctx: &Ctx) -> Report {
                         lc.count("routed_controller_messages", 1);
                     }
                     compare(&rx, &m, &mut fnd);
+                    // traffic on another channel after this controller still changes nothing
+                    let after = obs(&rx);
+                    for b in [0x90 | fch, 0x3C, 0x64, 0xB0 | fch, 0x01, 0x40, 0xB0 | fch, 0x7B, 0x00, 0xE0 | fch, 0x00, 0x00, 0x80 | fch, 0x3C, 0x00] {
+                        rx.parse(b);
+                    }
+                    if obs(&rx) != after {
+                        ops.push("foreign_on:60".into());
+                        ops.push("foreign_cc:1:64".into());
+                        ops.push("foreign_all_notes_off".into());
+                        ops.push("foreign_bend:0".into());
+                        fnd.push(("C18", "foreign-channel-traffic-after-controller", format!("after controller {} value {} on the listened channel, messages on channel {} changed an output", num, val, fch)));
+                    }
                     for (p, c, d) in fnd.drain(..) {
                         if p == "C18" || num != 123 {
                             let class = if p != "C18" { "controller-touches-notes" } else if !matches!(num, 1 | 7 | 71 | 74 | 5 | 65 | 64 | 121) { "unrouted-controller-has-effect" } else { c };
@@ -1090,6 +1273,35 @@ pub fn c18(ctx: &Ctx) -> Report {
                     }
                 }
             }
+            // the same values in other orders (descending, stride 128 = all LSB zero first, stride 129, bit-reversed):
+            // the reading must not depend on what was sent before
+            for order in 0..4u32 {
+                let mut rx2 = MonoMidiReceiver::new(ch);
+                let mut sent: Vec<String> = Vec::new();
+                'order: for i in 0..16384u32 {
+                    let v: u16 = match order {
+                        0 => (16383 - i) as u16,
+                        1 => ((i % 128) * 128 + i / 128) as u16,
+                        2 => ((i * 129) % 16384) as u16,
+                        _ => ((i as u16).reverse_bits() >> 2) as u16,
+                    };
+                    if i % 5 == 0 {
+                        rx2.parse(0xE0 | ch);
+                    }
+                    rx2.parse((v & 0x7f) as u8);
+                    rx2.parse((v >> 7) as u8);
+                    sent.push(format!("bend:{}", v));
+                    m.bend = Some(v);
+                    compare(&rx2, &m, &mut fnd);
+                    lc.count("pitch_bend_messages", 1);
+                    for (p, c, d) in fnd.drain(..) {
+                        if p == "C18" {
+                            lc.violation(Violation { prop: "C18", class: format!("{}-history-dependent", c), detail: format!("{} (message {} of the values sent in order pattern {})", d, i + 1, order), machine: "midi", config: json!({"channel": ch}), ops: sent.clone() });
+                            break 'order;
+                        }
+                    }
+                }
+            }
             // foreign channel bend: no effect
             let before = obs(&rx);
             for b in [0xE0 | ((ch + 1) % 16), 0x00, 0x00] {
@@ -1124,8 +1336,31 @@ pub fn c18(ctx: &Ctx) -> Report {
     // complement without state matching: all sequences of controller / bend / reset / note messages up to a depth
     let small = Alphabet { ccs: vec![(1, 64), (1, 0), (74, 127), (65, 0), (64, 127), (121, 0), (5, 1), (7, 99), (71, 3), (2, 77), (120, 0)], bends: vec![0, 16383], foreign: false, ..a };
     enumerate_sequences(&MidiM::new(2, small), if ctx.tier.is_thorough() { 5 } else { 4 }, ctx, &mut rep, &["C18"], "all controller message sequences, no state matching");
+    // every short sequence of controller messages (all 128 numbers), each followed by pitch-bend and note probes
+    {
+        let mut ops: Vec<(u8, u8)> = (0..128u8).map(|c| (c, 0u8)).collect();
+        for c in CC_FAMILY {
+            ops.push((c, 12));
+            ops.push((c, 127));
+        }
+        let probes = [MOp::Bend(16383), MOp::Bend(0), MOp::On(60, 100), MOp::Cc(1, 77), MOp::Bend(8192)];
+        if ctx.tier.is_thorough() {
+            let mut all: Vec<(u8, u8)> = Vec::new();
+            for c in 0..128u8 {
+                for v in [0u8, 12, 127] {
+                    all.push((c, v));
+                }
+            }
+            cc_sequences(ctx, &mut rep, 3, &all, 3, &probes, &["C18"], "all controller numbers x {0,12,127}, sequences of 3, then probes");
+            let fam: Vec<(u8, u8)> = CC_FAMILY.iter().flat_map(|c| [(*c, 0u8), (*c, 12), (*c, 127)]).collect();
+            cc_sequences(ctx, &mut rep, 9, &fam, 4, &probes, &["C18"], "special controller numbers x {0,12,127}, sequences of 4, then probes");
+        } else {
+            cc_sequences(ctx, &mut rep, 3, &ops, 3, &probes, &["C18"], "all controller numbers (value 0) + special numbers x {12,127}, sequences of 3, then probes");
+        }
+    }
     rep.nontrivial = rep.counters.get("routed_controller_messages").copied().unwrap_or(0) + rep.counters.get("pitch_bend_messages").copied().unwrap_or(0);
     rep.require_nonzero("routed_controller_messages");
+    rep.require_nonzero("controller_sequences");
     rep.sample(json!({"script": {"machine": "midi", "config": {"channel": 2}, "ops": ["cc:74:127", "bend:16383", "cc:121:0"]}, "expected": "vcf_resonance 1.0, pitch_bend 1.0, then everything back to power-on defaults"}));
     rep
 }
